@@ -232,8 +232,9 @@ Proof.
     repeat (split; [first [assumption|reflexivity]|]). right. repeat split; assumption.
 Qed.
 
-Definition resumed_pre (s : ep) : list event :=
-  if u_notify_sent s && pstate_eqb (u_state s) PRunning then [EvNetworkResumed] else [].
+Definition resumed_cond (s : ep) : bool :=
+  u_notify_sent s && pstate_eqb (u_state s) PRunning && negb (u_event_sent s).
+Definition resumed_pre (s : ep) : list event := if resumed_cond s then [EvNetworkResumed] else [].
 
 Lemma passes_input_running : forall s m,
   passes_filters s m = true -> is_handshake (m_body m) = false -> u_state s <> PDisconnected ->
@@ -272,15 +273,16 @@ Lemma handle_message_effect : forall dbg now nonce m s s',
   (passes_filters s m = false /\ s' = s) \/
   (passes_filters s m = true /\ u_last_recv_time s' = now /\
    u_notify_start s' = u_notify_start s /\ u_timeout s' = u_timeout s /\
-   u_notify_sent s' = u_notify_sent s && negb (pstate_eqb (u_state s) PRunning) /\
+   u_notify_sent s' = (if resumed_cond s then false else u_notify_sent s) /\
    ((match_of s (OMessage now nonce m) <> [] /\ msg_matched nonce m s s') \/
     (match_of s (OMessage now nonce m) = [] /\ msg_other s s'))).
 Proof.
-  intros dbg now nonce m s s' H. unfold handle_message in H.
+  intros dbg now nonce m s s' H. unfold handle_message, handle_message_gen in H.
+  cbn [fix_quiet_dead current_code] in H.
   destruct (passes_filters s m) eqn:Ep; cbn [negb] in H; [|inversion H; subst; left; auto].
   right. split; [reflexivity|]. cbv zeta in H.
   set (s1 := set_last_recv_time now s) in *.
-  set (s2 := if u_notify_sent s1 && pstate_eqb (u_state s1) PRunning
+  set (s2 := if u_notify_sent s1 && pstate_eqb (u_state s1) PRunning && negb (u_event_sent s1)
              then push_event EvNetworkResumed (set_notify_sent false s1) else s1) in *.
   (* facts about s2 *)
   assert (F : u_state s2 = u_state s /\ u_sync_remaining s2 = u_sync_remaining s /\
@@ -288,16 +290,17 @@ Proof.
               u_last_sync_request_time s2 = u_last_sync_request_time s /\
               u_last_recv_time s2 = now /\ u_notify_start s2 = u_notify_start s /\
               u_timeout s2 = u_timeout s /\ u_event_sent s2 = u_event_sent s /\
-              u_notify_sent s2 = u_notify_sent s && negb (pstate_eqb (u_state s) PRunning) /\
+              u_notify_sent s2 = (if resumed_cond s then false else u_notify_sent s) /\
               u_event_queue s2 = u_event_queue s ++ resumed_pre s).
-  { subst s2 s1. unfold resumed_pre. fsimpl.
+  { subst s2 s1. unfold resumed_pre, resumed_cond. fsimpl.
     destruct (u_notify_sent s) eqn:En; destruct (pstate_eqb (u_state s) PRunning) eqn:Er;
-      cbn [andb negb]; fsimpl; rewrite ?En, ?app_nil_r; repeat split. }
+      destruct (u_event_sent s) eqn:Ee;
+      cbn [andb negb]; fsimpl; rewrite ?En, ?Ee, ?app_nil_r; repeat split. }
   destruct F as (F1 & F2 & F3 & F4 & F5 & F6 & F7 & F8 & F9 & F10 & F11).
   (* a step from s2 that is a frame gives msg_other *)
   assert (Hframe : forall t, frame s2 t ->
             u_last_recv_time t = now /\ u_notify_start t = u_notify_start s /\ u_timeout t = u_timeout s /\
-            u_notify_sent t = u_notify_sent s && negb (pstate_eqb (u_state s) PRunning) /\ msg_other s t).
+            u_notify_sent t = (if resumed_cond s then false else u_notify_sent s) /\ msg_other s t).
   { intros t ((A1 & A2 & A3 & A4 & A5 & A6 & A7 & A8 & A9) & B & C).
     repeat (split; [congruence|]). unfold msg_other. repeat (split; [congruence|]).
     exists []. split; [reflexivity|]. right. split; [congruence|]. rewrite C, F11, app_nil_r. reflexivity. }
@@ -317,7 +320,8 @@ Proof.
       * unfold match_of. rewrite Eb, Ep, Hs, Hm. cbn. discriminate.
       * exists n. split; [exact Eb|]. split; [exact Hs|]. split; [exact Hm|]. split; [exact R1|].
         split; [congruence|].
-        assert (Er : resumed_pre s = []) by (unfold resumed_pre; rewrite Hs; cbn [pstate_eqb]; rewrite andb_false_r; reflexivity).
+        assert (Er : resumed_pre s = [])
+          by (unfold resumed_pre, resumed_cond; rewrite Hs; cbn [pstate_eqb]; rewrite andb_false_r; reflexivity).
         rewrite F11, Er, app_nil_r, F4 in R7. exact R7.
   - (* Input *)
     apply on_input_quiet in H.
@@ -355,7 +359,7 @@ Proof.
 Qed.
 
 Definition interrupt_now (now : Z) (s : ep) : bool :=
-  negb (u_notify_sent s) && (u_last_recv_time s + u_notify_start s <? now).
+  negb (u_notify_sent s) && negb (u_event_sent s) && (u_last_recv_time s + u_notify_start s <? now).
 Definition timeout_now (now : Z) (s : ep) : bool :=
   negb (u_event_sent s) && (u_last_recv_time s + u_timeout s <? now).
 Definition poll_pushed (now : Z) (s : ep) : list event :=
@@ -372,7 +376,8 @@ Lemma poll_running_effect : forall now cs s s',
   u_event_sent s' = u_event_sent s || timeout_now now s /\
   u_event_queue s' = u_event_queue s ++ poll_pushed now s.
 Proof.
-  intros now cs s s' H. unfold poll_running in H. cbv zeta in H.
+  intros now cs s s' H. unfold poll_running, poll_running_gen in H.
+  cbn [fix_quiet_dead current_code] in H. cbv zeta in H.
   match type of H with match ?X with _ => _ end = _ => destruct X as [s1| |] eqn:E1; try discriminate end.
   assert (F1 : frame s s1).
   { destruct (u_last_input_recv s + RUNNING_RETRY_INTERVAL <? now).
@@ -395,7 +400,7 @@ Proof.
   clearbody s3. clear F1 F2 F3.
   inversion H; subst s'; clear H.
   unfold poll_pushed, interrupt_now, timeout_now. rewrite <- A4, <- A6, <- A7, <- A8, <- B, <- C.
-  destruct (negb (u_notify_sent s3) && (u_last_recv_time s3 + u_notify_start s3 <? now)) eqn:EI; fsimpl;
+  destruct (negb (u_notify_sent s3) && negb (u_event_sent s3) && (u_last_recv_time s3 + u_notify_start s3 <? now)) eqn:EI; fsimpl;
   destruct (negb (u_event_sent s3) && (u_last_recv_time s3 + u_timeout s3 <? now)) eqn:ET; fsimpl;
   rewrite ?orb_true_r, ?orb_false_r, ?app_nil_r, <- ?app_assoc; cbn [app]; repeat split; congruence.
 Qed.
@@ -425,7 +430,8 @@ Lemma poll_effect : forall now nonce cs s out s',
     out = u_event_queue s /\ u_sync_requests s' = u_sync_requests s
   end.
 Proof.
-  intros now nonce cs s out s' H. unfold poll in H. cbv zeta in H.
+  intros now nonce cs s out s' H. unfold poll, poll_gen in H. cbv zeta in H.
+  change (poll_running_gen current_code) with poll_running in H.
   destruct (u_state s) eqn:Es.
   - inversion H; subst; fsimpl. rewrite Es. repeat split.
   - destruct (u_last_sync_request_time s + SYNC_RETRY_INTERVAL <? now); inversion H; subst; fsimpl;
@@ -446,6 +452,7 @@ Lemma send_input_effect : forall now inputs cs s s',
    (u_event_sent s' = u_event_sent s /\ u_event_queue s' = u_event_queue s)).
 Proof.
   intros now inputs cs s s' H. unfold send_input, send_input_gen in H.
+  cbn [fix_send_guard current_code] in H.
   destruct (pstate_eqb (u_state s) PRunning) eqn:Er; cbn [negb] in H.
   2:{ inversion H; subst. split; [apply same_ctl_refl|]. right. auto. }
   apply pstate_eqb_eq in Er.
@@ -489,11 +496,16 @@ Proof.
   apply pstate_eqb_eq in E. exact E.
 Qed.
 
+Ltac fold_ops H :=
+  change (handle_message_gen current_code) with handle_message in H;
+  change (poll_gen current_code) with poll in H;
+  change (send_input_gen current_code) with send_input in H.
+
 Lemma misc_effect : forall dbg o s s' out,
   step dbg o s = Ok (s', out) ->
   match o with OChecksum _ _ _ | OAdvantage _ | ODrain => frame s s' /\ out = [] | _ => True end.
 Proof.
-  intros dbg o s s' out H. destruct o; try exact I; unfold step in H; cbn [step_gen] in H.
+  intros dbg o s s' out H. destruct o; try exact I; unfold step in H; cbn [step_gen] in H; fold_ops H.
   - inversion H; subst; fsimpl. repeat split.
   - unfold update_local_frame_advantage in H.
     destruct (ts_update_local_frame_advantage _ _ _ _ _ _); inversion H; subst; fsimpl. repeat split.
@@ -546,14 +558,15 @@ Qed.
 Lemma in_sync_app : forall w p, ~ In EvSynchronized p -> (In EvSynchronized (w ++ p) <-> In EvSynchronized w).
 Proof. intros w p H. rewrite in_app_iff. tauto. Qed.
 
-Lemma resumed_pre_cases : forall s,
-  (u_notify_sent s = true /\ u_state s = PRunning /\ resumed_pre s = [EvNetworkResumed]) \/
-  ((u_notify_sent s = false \/ u_state s <> PRunning) /\ resumed_pre s = []).
+Lemma pre_kind_resumed_aux : forall s,
+  (u_notify_sent s = true /\ u_state s = PRunning /\ u_event_sent s = false /\ resumed_cond s = true) \/
+  resumed_cond s = false.
 Proof.
-  intro s. unfold resumed_pre. destruct (u_notify_sent s); cbn [andb]; [|right; auto].
-  destruct (pstate_eqb (u_state s) PRunning) eqn:E.
-  - left. apply pstate_eqb_eq in E. auto.
-  - right. split; [|reflexivity]. right. intro H. rewrite H in E. discriminate.
+  intro s. unfold resumed_cond.
+  destruct (u_notify_sent s); cbn [andb]; [|right; reflexivity].
+  destruct (pstate_eqb (u_state s) PRunning) eqn:E; cbn [andb]; [|right; reflexivity].
+  destruct (u_event_sent s); cbn [negb]; [right; reflexivity|].
+  left. apply pstate_eqb_eq in E. auto.
 Qed.
 
 Lemma wrap_small : forall x, 0 <= x < WRAP -> x mod WRAP = x.
@@ -600,6 +613,29 @@ Inductive pre_kind (s s' : ep) : list event -> Prop :=
                pre_kind s s' [EvNetworkResumed]
 | pk_interrupted : forall t, u_notify_sent s = false -> u_state s = PRunning -> u_notify_sent s' = true ->
                pre_kind s s' [EvNetworkInterrupted t].
+
+Lemma pre_kind_resumed : forall s s',
+  u_notify_sent s' = (if resumed_cond s then false else u_notify_sent s) -> pre_kind s s' (resumed_pre s).
+Proof.
+  intros s s' H. unfold resumed_pre.
+  destruct (pre_kind_resumed_aux s) as [(A & B & C & D)|D]; rewrite D in *.
+  - apply pk_resumed; assumption.
+  - apply pk_none; assumption.
+Qed.
+
+Lemma resumed_pre_dead : forall s, u_event_sent s = true -> resumed_pre s = [].
+Proof.
+  intros s H. unfold resumed_pre, resumed_cond. rewrite H. cbn [negb]. rewrite andb_false_r. reflexivity.
+Qed.
+
+Lemma interrupt_now_true : forall now s, interrupt_now now s = true ->
+  u_notify_sent s = false /\ u_event_sent s = false /\ u_last_recv_time s + u_notify_start s < now.
+Proof.
+  intros now s H. unfold interrupt_now in H.
+  apply andb_true_iff in H. destruct H as [H H3]. apply andb_true_iff in H. destruct H as [H1 H2].
+  destruct (u_notify_sent s); [discriminate|]. destruct (u_event_sent s); [discriminate|].
+  repeat split. lia.
+Qed.
 
 (* state-preserving steps: optional Resumed/Interrupted, optional guarded Disconnected, inputs *)
 Lemma inv1_same_state : forall s W ms s' W' pre (d : bool) evs,
@@ -678,7 +714,7 @@ Proof.
   intros dbg o s s' out W ms HI H.
   destruct o as [now nonce|now nonce m|now nonce cs|now inputs cs|now|now fr ck|lf|].
   - (* synchronize *)
-    unfold step in H; cbn [step_gen] in H.
+    unfold step in H; cbn [step_gen] in H; fold_ops H.
     destruct (synchronize now nonce s) as [t| |] eqn:E; inversion H; subst; clear H.
     apply synchronize_effect in E.
     destruct E as (S0 & S1 & S2 & S3 & S4 & S5 & S6 & S7 & S8 & S9 & S10).
@@ -690,7 +726,7 @@ Proof.
       destruct Hst as (R & M & N & E). rewrite M. pose proof num_facts.
       repeat split; try assumption; lia.
   - (* handle_message *)
-    unfold step in H; cbn [step_gen] in H.
+    unfold step in H; cbn [step_gen] in H; fold_ops H.
     destruct (handle_message dbg now nonce m s) as [t| |] eqn:E; inversion H; subst; clear H.
     apply handle_message_effect in E.
     destruct E as [(Hf & ->)|(Hp & L & NS & TO & NT & [(Hm & Hmm)|(Hm & Ho)])].
@@ -720,7 +756,8 @@ Proof.
         -- unfold st_facts. cbv zeta. rewrite S', Elen, R1, wd_app, recog_app, R. cbn [without_disconnected filter is_disconnected negb recog rstep].
            assert (((NUM_SYNC_PACKETS =? NUM_SYNC_PACKETS) && (Z.of_nat (length ms) + 1 =? Z.of_nat (length ms) + 1)
                     && (Z.of_nat (length ms) + 1 <? NUM_SYNC_PACKETS)) = true) as -> by lia.
-           rewrite NT, N. cbn [andb]. repeat split; lia.
+           assert (u_notify_sent s' = false) as -> by (rewrite NT, N; destruct (resumed_cond s); reflexivity).
+           repeat split; lia.
       * assert (Esr : u_sync_remaining s = 1) by lia.
         split; [|split].
         -- rewrite cd_app, Hc, E. reflexivity.
@@ -732,23 +769,19 @@ Proof.
               rewrite app_nth2, Nat.sub_diag by lia. reflexivity.
         -- unfold st_facts. cbv zeta. rewrite S', Elen, wd_app, recog_app, R. cbn [without_disconnected filter is_disconnected negb recog rstep].
            assert ((Z.of_nat (length ms) =? NUM_SYNC_PACKETS - 1) = true) as -> by lia.
-           rewrite NT, N. cbn [andb]. split; [reflexivity|lia].
+           assert (u_notify_sent s' = false) as -> by (rewrite NT, N; destruct (resumed_cond s); reflexivity).
+           split; [reflexivity|lia].
     + (* any other accepted message *)
       rewrite Hm, !app_nil_r.
       destruct Ho as (O1 & O2 & O3 & O4 & O5 & evs & Hall & Hq).
-      assert (Hpk : pre_kind s s' (resumed_pre s)).
-      { destruct (resumed_pre_cases s) as [(A & B & ->)|([A|A] & ->)].
-        - apply pk_resumed; try assumption. rewrite NT, A, B. reflexivity.
-        - apply pk_none. rewrite NT, A. reflexivity.
-        - apply pk_none. rewrite NT. destruct (pstate_eqb (u_state s) PRunning) eqn:X;
-            [apply pstate_eqb_eq in X; contradiction|]. cbn. apply andb_true_r. }
+      assert (Hpk : pre_kind s s' (resumed_pre s)) by (apply pre_kind_resumed; exact NT).
       destruct Hq as [(B1 & B2 & B3 & B4)|(B1 & B2)].
       * eapply (inv1_same_state s W ms s' W (resumed_pre s) true evs); eauto.
         rewrite B4. lsolve.
       * eapply (inv1_same_state s W ms s' W (resumed_pre s) false evs); eauto.
         rewrite B2. lsolve.
   - (* poll *)
-    unfold step in H; cbn [step_gen] in H.
+    unfold step in H; cbn [step_gen] in H; fold_ops H.
     destruct (poll now nonce cs s) as [[evs t]| |] eqn:E; inversion H; subst; clear H.
     apply poll_effect in E. destruct E as (Q & NS & TO & L & RM & SR & Hst).
     cbn [match_of]. rewrite app_nil_r.
@@ -771,9 +804,8 @@ Proof.
            destruct (u_event_sent s); [discriminate|]. rewrite D. auto.
         -- rewrite D. apply orb_false_r.
       * destruct (interrupt_now now s) eqn:T.
-        -- unfold interrupt_now in T. apply andb_true_iff in T. destruct T as [T _].
-           apply pk_interrupted; try assumption; [destruct (u_notify_sent s); [discriminate|reflexivity]|].
-           rewrite C. apply orb_true_r.
+        -- apply interrupt_now_true in T. destruct T as (T1 & T2 & T3).
+           apply pk_interrupted; try assumption. rewrite C. apply orb_true_r.
         -- apply pk_none. rewrite C. apply orb_false_r.
     + destruct Hst as (A & B & C & D & F).
       eapply (inv1_dead s W ms s'); eauto.
@@ -783,8 +815,8 @@ Proof.
       eapply (inv1_dead s W ms s'); eauto.
       rewrite Q, D. lsolve.
   - (* send_input *)
-    unfold step in H; cbn [step_gen] in H.
-    destruct (send_input_gen true now inputs cs s) as [t| |] eqn:E; inversion H; subst; clear H.
+    unfold step in H; cbn [step_gen] in H; fold_ops H.
+    destruct (send_input now inputs cs s) as [t| |] eqn:E; inversion H; subst; clear H.
     apply send_input_effect in E. destruct E as ((A1 & A2 & A3 & A4 & A5 & A6 & A7 & A8 & A9) & Hq).
     cbn [match_of]. rewrite !app_nil_r.
     destruct Hq as [(B1 & B2 & B3 & B4)|(B1 & B2)].
@@ -795,7 +827,7 @@ Proof.
       * rewrite B2. lsolve.
       * apply pk_none; exact A4.
   - (* disconnect *)
-    unfold step in H; cbn [step_gen] in H. inversion H; subst; clear H.
+    unfold step in H; cbn [step_gen] in H; fold_ops H. inversion H; subst; clear H.
     pose proof (disconnect_effect now s) as (D1 & D2 & D3 & D4 & D5 & D6 & D7 & D8 & D9 & D10).
     cbn [match_of]. rewrite !app_nil_r.
     eapply inv1_dead; eauto.
@@ -821,10 +853,11 @@ Qed.
 Lemma inv1_run : forall dbg ops s W ms s' evs,
   Inv1 s W ms -> run dbg s ops = Ok (s', evs) -> Inv1 s' (W ++ evs) (ms ++ matches dbg s ops).
 Proof.
-  induction ops as [|o r IH]; intros s W ms s' evs HI H; cbn [run matches] in *.
+  induction ops as [|o r IH]; intros s W ms s' evs HI H; unfold run in *; cbn [run_gen matches] in *.
   - inversion H; subst. rewrite !app_nil_r. exact HI.
-  - destruct (step dbg o s) as [[s1 e1]| |] eqn:E; try discriminate.
-    destruct (run dbg s1 r) as [[s2 e2]| |] eqn:E2; try discriminate.
+  - change (step_gen current_code) with step in H.
+    destruct (step dbg o s) as [[s1 e1]| |] eqn:E; try discriminate.
+    destruct (run_gen current_code dbg s1 r) as [[s2 e2]| |] eqn:E2; try discriminate.
     inversion H; subst. rewrite !app_assoc. eapply IH; [|exact E2].
     eapply inv1_step; eauto.
 Qed.
@@ -875,8 +908,8 @@ Proof.
 Qed.
 End Initial.
 
-(* ---------- invariant 2: the full grammar under the caller discipline ---------- *)
-Definition InvS (s : ep) (W : list event) (md : bool) : Prop :=
+(* ---------- invariant 2: the full grammar (nothing but Input events after Disconnected) ---------- *)
+Definition InvS (s : ep) (W : list event) : Prop :=
   let w := W ++ u_event_queue s in
   match u_state s with
   | PInitializing =>
@@ -885,23 +918,21 @@ Definition InvS (s : ep) (W : list event) (md : bool) : Prop :=
     recog (RSync 0) w = Some (RSync (NUM_SYNC_PACKETS - u_sync_remaining s)) /\
     1 <= u_sync_remaining s <= NUM_SYNC_PACKETS /\ u_notify_sent s = false /\ u_event_sent s = false
   | PRunning =>
-    if u_event_sent s
-    then recog (RSync 0) w = Some RDead /\ (md = true \/ In EvDisconnected (u_event_queue s))
-    else recog (RSync 0) w = Some (if u_notify_sent s then RInterrupted else RRun)
+    recog (RSync 0) w = Some (if u_event_sent s then RDead else if u_notify_sent s then RInterrupted else RRun)
   | _ => recog (RSync 0) w <> None
   end.
 
-Lemma invS_accepts : forall s W md, InvS s W md -> recog (RSync 0) (W ++ u_event_queue s) <> None.
+Lemma invS_accepts : forall s W, InvS s W -> recog (RSync 0) (W ++ u_event_queue s) <> None.
 Proof.
-  intros s W md H. unfold InvS in H. cbv zeta in H.
+  intros s W H. unfold InvS in H. cbv zeta in H.
   destruct (u_state s); try exact H.
   - destruct H as [H _]; rewrite H; discriminate.
   - destruct H as [H _]; rewrite H; discriminate.
-  - destruct (u_event_sent s); [destruct H as [H _]|]; rewrite H; discriminate.
+  - rewrite H; discriminate.
 Qed.
 
-Lemma invS_same_state : forall s W md s' W' md' pre (d : bool) evs,
-  InvS s W md ->
+Lemma invS_same_state : forall s W s' W' pre (d : bool) evs,
+  InvS s W ->
   u_state s' = u_state s -> u_sync_remaining s' = u_sync_remaining s ->
   W' ++ u_event_queue s' = (W ++ u_event_queue s) ++ pre ++ (if d then [EvDisconnected] else []) ++ evs ->
   forallb is_input evs = true ->
@@ -909,10 +940,9 @@ Lemma invS_same_state : forall s W md s' W' md' pre (d : bool) evs,
    else u_event_sent s' = u_event_sent s) ->
   pre_kind s s' pre ->
   (u_event_sent s = true -> pre = []) ->
-  (u_state s = PRunning -> u_event_sent s' = true -> md' = true \/ In EvDisconnected (u_event_queue s')) ->
-  InvS s' W' md'.
+  InvS s' W'.
 Proof.
-  intros s W md s' W' md' pre d evs HI Es Er Hw Hall Hd Hp Hpre Hmd.
+  intros s W s' W' pre d evs HI Es Er Hw Hall Hd Hp Hpre.
   unfold InvS in *. cbv zeta in *. rewrite Hw, Es, Er. set (w := W ++ u_event_queue s) in *.
   destruct (u_state s) eqn:Est.
   - destruct HI as (R & N & E).
@@ -922,9 +952,9 @@ Proof.
     destruct Hp as [Hn| |]; try congruence. destruct d; [destruct Hd as (_ & _ & Hd); congruence|].
     cbn [app]. rewrite recog_app, R, (recog_inputs _ _ Hall). repeat split; try congruence; lia.
   - destruct (u_event_sent s) eqn:Ee.
-    + destruct HI as (R & _). rewrite (Hpre eq_refl).
+    + rewrite (Hpre eq_refl).
       destruct d; [destruct Hd; discriminate|]. rewrite Hd. cbn [app].
-      rewrite recog_app, R, (recog_inputs _ _ Hall). split; [reflexivity|]. apply Hmd; auto.
+      rewrite recog_app, HI. apply recog_inputs. exact Hall.
     + rewrite recog_app, HI.
       assert (Hr : recog (if u_notify_sent s then RInterrupted else RRun) pre
                    = Some (if u_notify_sent s' then RInterrupted else RRun)).
@@ -934,7 +964,7 @@ Proof.
       * destruct Hd as (_ & Hd & _). rewrite Hd. cbn [app recog].
         assert (rstep (if u_notify_sent s' then RInterrupted else RRun) EvDisconnected = Some RDead) as ->
           by (destruct (u_notify_sent s'); reflexivity).
-        rewrite (recog_inputs _ _ Hall). split; [reflexivity|]. apply Hmd; auto.
+        apply recog_inputs. exact Hall.
       * rewrite Hd. cbn [app]. apply recog_inputs. exact Hall.
   - destruct Hp as [Hn| |]; try congruence. destruct d; [destruct Hd as (_ & _ & Hd); congruence|].
     cbn [app]. rewrite recog_app. destruct (recog (RSync 0) w); [|congruence].
@@ -944,10 +974,600 @@ Proof.
     rewrite (recog_inputs _ _ Hall). discriminate.
 Qed.
 
-Lemma invS_dead : forall s W md s' W' md',
-  InvS s W md -> (u_state s' = PDisconnected \/ u_state s' = PShutdown) ->
-  W' ++ u_event_queue s' = W ++ u_event_queue s -> InvS s' W' md'.
+Lemma invS_dead : forall s W s' W',
+  InvS s W -> (u_state s' = PDisconnected \/ u_state s' = PShutdown) ->
+  W' ++ u_event_queue s' = W ++ u_event_queue s -> InvS s' W'.
 Proof.
-  intros s W md s' W' md' HI Hs Hw. apply invS_accepts in HI. unfold InvS. cbv zeta. rewrite Hw.
+  intros s W s' W' HI Hs Hw. apply invS_accepts in HI. unfold InvS. cbv zeta. rewrite Hw.
   destruct Hs as [-> | ->]; exact HI.
+Qed.
+
+Lemma invS_step : forall dbg o s s' out W,
+  InvS s W -> step dbg o s = Ok (s', out) -> InvS s' (W ++ out).
+Proof.
+  intros dbg o s s' out W HI H.
+  destruct o as [now nonce|now nonce m|now nonce cs|now inputs cs|now|now fr ck|lf|].
+  - (* synchronize *)
+    unfold step in H; cbn [step_gen] in H; fold_ops H.
+    destruct (synchronize now nonce s) as [t| |] eqn:E; inversion H; subst; clear H.
+    apply synchronize_effect in E.
+    destruct E as (S0 & S1 & S2 & S3 & S4 & S5 & S6 & S7 & S8 & S9 & S10).
+    unfold InvS in *. cbv zeta in *. rewrite S0 in HI. rewrite S1, S2, S4, S5, S10, app_nil_r.
+    destruct HI as (R & N & E). pose proof num_facts.
+    replace (NUM_SYNC_PACKETS - NUM_SYNC_PACKETS) with 0 by lia. repeat split; try assumption; lia.
+  - (* handle_message *)
+    unfold step in H; cbn [step_gen] in H; fold_ops H.
+    destruct (handle_message dbg now nonce m s) as [t| |] eqn:E; inversion H; subst; clear H.
+    apply handle_message_effect in E. rewrite app_nil_r.
+    destruct E as [(Hf & ->)|(Hp & L & NS & TO & NT & [(Hm & Hmm)|(Hm & Ho)])].
+    + exact HI.
+    + (* matched reply *)
+      destruct Hmm as (n & Eb & Ss & Zm & R1 & R3 & Hcase).
+      unfold InvS in *. cbv zeta in *. rewrite Ss in HI.
+      destruct HI as (R & (Slo & Shi) & N & E).
+      pose proof num_facts as (N1 & N2).
+      assert (Erem : (u_sync_remaining s - 1) mod WRAP = u_sync_remaining s - 1)
+        by (apply wrap_small; lia).
+      rewrite Erem in *.
+      assert (En' : u_notify_sent s' = false) by (rewrite NT, N; destruct (resumed_cond s); reflexivity).
+      destruct Hcase as [(Hpos & S' & Rm & Rq & Q)|(Hz & S' & Rm & Rq & Q)]; rewrite S', Q, app_assoc, recog_app, R.
+      * assert (Ecnt : (NUM_SYNC_PACKETS - (u_sync_remaining s - 1)) mod WRAP = NUM_SYNC_PACKETS - u_sync_remaining s + 1)
+          by (rewrite wrap_small; lia).
+        rewrite Ecnt, R1. cbn [recog rstep].
+        assert (((NUM_SYNC_PACKETS =? NUM_SYNC_PACKETS)
+                 && (NUM_SYNC_PACKETS - u_sync_remaining s + 1 =? NUM_SYNC_PACKETS - u_sync_remaining s + 1)
+                 && (NUM_SYNC_PACKETS - u_sync_remaining s + 1 <? NUM_SYNC_PACKETS)) = true) as -> by lia.
+        rewrite En', R3, E.
+        replace (NUM_SYNC_PACKETS - (u_sync_remaining s - 1)) with (NUM_SYNC_PACKETS - u_sync_remaining s + 1) by lia.
+        repeat split; lia.
+      * cbn [recog rstep].
+        assert ((NUM_SYNC_PACKETS - u_sync_remaining s =? NUM_SYNC_PACKETS - 1) = true) as -> by lia.
+        rewrite R3, E, En'. reflexivity.
+    + (* any other accepted message *)
+      destruct Ho as (O1 & O2 & O3 & O4 & O5 & evs & Hall & Hqq).
+      assert (Hpk : pre_kind s s' (resumed_pre s)) by (apply pre_kind_resumed; exact NT).
+      destruct Hqq as [(B1 & B2 & B3 & B4)|(B1 & B2)].
+      * eapply (invS_same_state s W s' W (resumed_pre s) true evs); eauto.
+        -- rewrite B4. lsolve.
+        -- apply resumed_pre_dead.
+      * eapply (invS_same_state s W s' W (resumed_pre s) false evs); eauto.
+        -- rewrite B2. lsolve.
+        -- apply resumed_pre_dead.
+  - (* poll *)
+    unfold step in H; cbn [step_gen] in H; fold_ops H.
+    destruct (poll now nonce cs s) as [[evs t]| |] eqn:E; inversion H; subst; clear H.
+    apply poll_effect in E. destruct E as (Q & NS & TO & L & RM & SR & Hst).
+    destruct (u_state s) eqn:Es.
+    + destruct Hst as (A & B & C & D & F).
+      eapply (invS_same_state s W s' _ [] false []); eauto; try congruence.
+      * rewrite Q, D. lsolve.
+      * apply pk_none; exact B.
+    + destruct Hst as (A & B & C & D & F).
+      eapply (invS_same_state s W s' _ [] false []); eauto; try congruence.
+      * rewrite Q, D. lsolve.
+      * apply pk_none; exact B.
+    + destruct Hst as (A & B & C & D & F).
+      eapply (invS_same_state s W s' _
+                (if interrupt_now now s then [EvNetworkInterrupted (Z.max 0 (u_timeout s - u_notify_start s))] else [])
+                (timeout_now now s) []); eauto; try congruence.
+      * rewrite Q, F. unfold poll_pushed. lsolve.
+      * destruct (timeout_now now s) eqn:T.
+        -- unfold timeout_now in T. apply andb_true_iff in T. destruct T as [T _].
+           destruct (u_event_sent s); [discriminate|]. rewrite D. auto.
+        -- rewrite D. apply orb_false_r.
+      * destruct (interrupt_now now s) eqn:T.
+        -- apply interrupt_now_true in T. destruct T as (T1 & T2 & T3).
+           apply pk_interrupted; try assumption. rewrite C. apply orb_true_r.
+        -- apply pk_none. rewrite C. apply orb_false_r.
+      * intro He. destruct (interrupt_now now s) eqn:T; [|reflexivity].
+        apply interrupt_now_true in T. destruct T as (_ & T & _). congruence.
+    + destruct Hst as (A & B & C & D & F).
+      eapply (invS_dead s W s'); eauto.
+      * destruct (u_shutdown_timeout s <? now); auto.
+      * rewrite Q, D. lsolve.
+    + destruct Hst as (A & B & C & D & F).
+      eapply (invS_dead s W s'); eauto.
+      rewrite Q, D. lsolve.
+  - (* send_input *)
+    unfold step in H; cbn [step_gen] in H; fold_ops H.
+    destruct (send_input now inputs cs s) as [t| |] eqn:E; inversion H; subst; clear H.
+    apply send_input_effect in E. destruct E as ((A1 & A2 & A3 & A4 & A5 & A6 & A7 & A8 & A9) & Hqq).
+    destruct Hqq as [(B1 & B2 & B3 & B4)|(B1 & B2)].
+    + eapply (invS_same_state s W s' _ [] true []); eauto.
+      * rewrite B4. lsolve.
+      * apply pk_none; exact A4.
+    + eapply (invS_same_state s W s' _ [] false []); eauto.
+      * rewrite B2. lsolve.
+      * apply pk_none; exact A4.
+  - (* disconnect *)
+    unfold step in H; cbn [step_gen] in H; fold_ops H. inversion H; subst; clear H.
+    pose proof (disconnect_effect now s) as (D1 & D2 & D3 & D4 & D5 & D6 & D7 & D8 & D9 & D10).
+    eapply invS_dead; eauto.
+    + rewrite D1. destruct (pstate_eqb (u_state s) PShutdown); auto.
+    + rewrite D10. lsolve.
+  - pose proof (misc_effect _ _ _ _ _ H) as (((A1 & A2 & A3 & A4 & A5 & A6 & A7 & A8 & A9) & B & C) & ->).
+    eapply (invS_same_state s W s' _ [] false []); eauto.
+    + rewrite C. lsolve.
+    + apply pk_none; exact A4.
+  - pose proof (misc_effect _ _ _ _ _ H) as (((A1 & A2 & A3 & A4 & A5 & A6 & A7 & A8 & A9) & B & C) & ->).
+    eapply (invS_same_state s W s' _ [] false []); eauto.
+    + rewrite C. lsolve.
+    + apply pk_none; exact A4.
+  - pose proof (misc_effect _ _ _ _ _ H) as (((A1 & A2 & A3 & A4 & A5 & A6 & A7 & A8 & A9) & B & C) & ->).
+    eapply (invS_same_state s W s' _ [] false []); eauto.
+    + rewrite C. lsolve.
+    + apply pk_none; exact A4.
+Qed.
+
+Lemma invS_run : forall dbg ops s W s' evs,
+  InvS s W -> run dbg s ops = Ok (s', evs) -> InvS s' (W ++ evs).
+Proof.
+  induction ops as [|o r IH]; intros s W s' evs HI H; unfold run in *; cbn [run_gen] in *.
+  - inversion H; subst. rewrite app_nil_r. exact HI.
+  - change (step_gen current_code) with step in H.
+    destruct (step dbg o s) as [[s1 e1]| |] eqn:E; try discriminate.
+    destruct (run_gen current_code dbg s1 r) as [[s2 e2]| |] eqn:E2; try discriminate.
+    inversion H; subst. rewrite app_assoc. eapply IH; [|exact E2].
+    eapply invS_step; eauto.
+Qed.
+
+(* ---------- invariant 3: timers ---------- *)
+Definition no_interrupted (l : list event) : Prop := forall t, ~ In (EvNetworkInterrupted t) l.
+
+Definition InvT (ns to : Z) (s : ep) (la : Z) : Prop :=
+  (u_notify_start s = ns /\ u_timeout s = to /\ u_last_recv_time s = la) /\ no_interrupted (u_event_queue s).
+
+Lemma no_interrupted_app : forall a b, no_interrupted a -> no_interrupted b -> no_interrupted (a ++ b).
+Proof. intros a b Ha Hb t H. apply in_app_iff in H. destruct H; [eapply Ha|eapply Hb]; eauto. Qed.
+
+Lemma no_interrupted_inputs : forall evs, forallb is_input evs = true -> no_interrupted evs.
+Proof.
+  induction evs as [|e evs IH]; intros H t; [intros []|].
+  cbn in H. apply andb_true_iff in H. destruct H as [He H]. intros [X|X].
+  - subst. discriminate.
+  - exact (IH H t X).
+Qed.
+
+Lemma no_interrupted_resumed_pre : forall s, no_interrupted (resumed_pre s).
+Proof.
+  intros s t H. unfold resumed_pre in H.
+  destruct (resumed_cond s); cbn in H; intuition discriminate.
+Qed.
+
+Lemma invT_step : forall ns to dbg o s s' out la,
+  InvT ns to s la -> step dbg o s = Ok (s', out) -> InvT ns to s' (accept_time s o la).
+Proof.
+  intros ns to dbg o s s' out la ((HK1 & HK2 & HL) & HN) H.
+  destruct o as [now nonce|now nonce m|now nonce cs|now inputs cs|now|now fr ck|lf|]; cbn [accept_time].
+  - unfold step in H; cbn [step_gen] in H; fold_ops H.
+    destruct (synchronize now nonce s) as [t| |] eqn:E; inversion H; subst; clear H.
+    apply synchronize_effect in E.
+    destruct E as (S0 & S1 & S2 & S3 & S4 & S5 & S6 & S7 & S8 & S9 & S10).
+    split; [repeat split; congruence|rewrite S10; exact HN].
+  - unfold step in H; cbn [step_gen] in H; fold_ops H.
+    destruct (handle_message dbg now nonce m s) as [t| |] eqn:E; inversion H; subst; clear H.
+    apply handle_message_effect in E.
+    destruct E as [(Hf & ->)|(Hp & L & NS & TO & NT & [(Hm & Hmm)|(Hm & Ho)])].
+    + rewrite Hf. split; [repeat split; congruence|assumption].
+    + rewrite Hp. split; [repeat split; congruence|].
+      destruct Hmm as (n & Eb & Ss & Zm & R1 & R3 & [(_ & _ & _ & _ & Q)|(_ & _ & _ & _ & Q)]);
+        rewrite Q; apply no_interrupted_app; try assumption;
+        intros t [X|[]]; discriminate.
+    + rewrite Hp. split; [repeat split; congruence|].
+      destruct Ho as (O1 & O2 & O3 & O4 & O5 & evs & Hall & [(B1 & B2 & B3 & B4)|(B1 & B2)]).
+      * rewrite B4. apply no_interrupted_app; [assumption|].
+        apply no_interrupted_app; [apply no_interrupted_resumed_pre|].
+        intros t [X|X]; [discriminate|exact (no_interrupted_inputs _ Hall t X)].
+      * rewrite B2. apply no_interrupted_app; [assumption|].
+        apply no_interrupted_app; [apply no_interrupted_resumed_pre|apply no_interrupted_inputs; exact Hall].
+  - unfold step in H; cbn [step_gen] in H; fold_ops H.
+    destruct (poll now nonce cs s) as [[evs t]| |] eqn:E; inversion H; subst; clear H.
+    apply poll_effect in E. destruct E as (Q & NS & TO & L & RM & SR & Hst).
+    split; [repeat split; congruence|]. rewrite Q. intros t [].
+  - unfold step in H; cbn [step_gen] in H; fold_ops H.
+    destruct (send_input now inputs cs s) as [t| |] eqn:E; inversion H; subst; clear H.
+    apply send_input_effect in E. destruct E as ((A1 & A2 & A3 & A4 & A5 & A6 & A7 & A8 & A9) & Hqq).
+    split; [repeat split; congruence|].
+    destruct Hqq as [(B1 & B2 & B3 & B4)|(B1 & B2)]; [rewrite B4|rewrite B2; exact HN].
+    apply no_interrupted_app; [assumption|]. intros t [X|[]]; discriminate.
+  - unfold step in H; cbn [step_gen] in H; fold_ops H. inversion H; subst; clear H.
+    pose proof (disconnect_effect now s) as (D1 & D2 & D3 & D4 & D5 & D6 & D7 & D8 & D9 & D10).
+    split; [repeat split; congruence|rewrite D10; exact HN].
+  - pose proof (misc_effect _ _ _ _ _ H) as (((A1 & A2 & A3 & A4 & A5 & A6 & A7 & A8 & A9) & B & C) & ->).
+    split; [repeat split; congruence|rewrite C; exact HN].
+  - pose proof (misc_effect _ _ _ _ _ H) as (((A1 & A2 & A3 & A4 & A5 & A6 & A7 & A8 & A9) & B & C) & ->).
+    split; [repeat split; congruence|rewrite C; exact HN].
+  - pose proof (misc_effect _ _ _ _ _ H) as (((A1 & A2 & A3 & A4 & A5 & A6 & A7 & A8 & A9) & B & C) & ->).
+    split; [repeat split; congruence|rewrite C; exact HN].
+Qed.
+
+Lemma invT_run : forall ns to dbg ops s la s' evs,
+  InvT ns to s la -> run dbg s ops = Ok (s', evs) -> InvT ns to s' (last_accept dbg s ops la).
+Proof.
+  intros ns to dbg. induction ops as [|o r IH]; intros s la s' evs HI H; unfold run in *; cbn [run_gen last_accept] in *.
+  - inversion H; subst. exact HI.
+  - change (step_gen current_code) with step in H.
+    destruct (step dbg o s) as [[s1 e1]| |] eqn:E; try discriminate.
+    destruct (run_gen current_code dbg s1 r) as [[s2 e2]| |] eqn:E2; try discriminate.
+    inversion H; subst. eapply IH; [|exact E2]. eapply invT_step; eauto.
+Qed.
+
+(* what a poll pushes, for any state *)
+Lemma poll_pushes : forall dbg now nonce cs s s' out,
+  step dbg (OPoll now nonce cs) s = Ok (s', out) ->
+  exists pushed, out = u_event_queue s ++ pushed /\
+    (forall t, In (EvNetworkInterrupted t) pushed ->
+       u_state s = PRunning /\ u_notify_sent s = false /\ u_event_sent s = false /\
+       u_last_recv_time s + u_notify_start s < now /\ t = Z.max 0 (u_timeout s - u_notify_start s)) /\
+    (In EvDisconnected pushed ->
+       u_state s = PRunning /\ u_event_sent s = false /\ u_last_recv_time s + u_timeout s < now) /\
+    (u_state s = PRunning -> u_notify_sent s = false -> u_event_sent s = false ->
+     u_last_recv_time s + u_notify_start s < now ->
+       In (EvNetworkInterrupted (Z.max 0 (u_timeout s - u_notify_start s))) pushed /\ u_notify_sent s' = true) /\
+    (u_state s = PRunning -> u_event_sent s = false -> u_last_recv_time s + u_timeout s < now ->
+       In EvDisconnected pushed /\ u_event_sent s' = true).
+Proof.
+  intros dbg now nonce cs s s' out H. unfold step in H; cbn [step_gen] in H; fold_ops H.
+  destruct (poll now nonce cs s) as [[evs t]| |] eqn:E; inversion H; subst; clear H.
+  apply poll_effect in E. destruct E as (Q & NS & TO & L & RM & SR & Hst).
+  assert (Hother : u_state s <> PRunning -> out = u_event_queue s ->
+    exists pushed, out = u_event_queue s ++ pushed /\
+    (forall t, In (EvNetworkInterrupted t) pushed ->
+       u_state s = PRunning /\ u_notify_sent s = false /\ u_event_sent s = false /\
+       u_last_recv_time s + u_notify_start s < now /\ t = Z.max 0 (u_timeout s - u_notify_start s)) /\
+    (In EvDisconnected pushed ->
+       u_state s = PRunning /\ u_event_sent s = false /\ u_last_recv_time s + u_timeout s < now) /\
+    (u_state s = PRunning -> u_notify_sent s = false -> u_event_sent s = false ->
+     u_last_recv_time s + u_notify_start s < now ->
+       In (EvNetworkInterrupted (Z.max 0 (u_timeout s - u_notify_start s))) pushed /\ u_notify_sent s' = true) /\
+    (u_state s = PRunning -> u_event_sent s = false -> u_last_recv_time s + u_timeout s < now ->
+       In EvDisconnected pushed /\ u_event_sent s' = true)).
+  { intros Hn D. exists []. rewrite app_nil_r. split; [exact D|].
+    split; [intros ? []|]. split; [intros []|]. split; intro X; contradiction. }
+  destruct (u_state s) eqn:Es; try (destruct Hst as (A & B & C & D & F); apply Hother; [discriminate|exact D]).
+  clear Hother. destruct Hst as (A & B & C & D & F). exists (poll_pushed now s). split; [exact F|].
+  unfold poll_pushed.
+  assert (HI : interrupt_now now s = true <->
+               (u_notify_sent s = false /\ u_event_sent s = false /\ u_last_recv_time s + u_notify_start s < now)).
+  { split; [apply interrupt_now_true|]. intros (X1 & X2 & X3). unfold interrupt_now. rewrite X1, X2. cbn. lia. }
+  assert (HT : timeout_now now s = true <->
+               (u_event_sent s = false /\ u_last_recv_time s + u_timeout s < now)).
+  { unfold timeout_now. split.
+    - intro X. apply andb_true_iff in X. destruct X as [X1 X2].
+      destruct (u_event_sent s); [discriminate|]. split; [reflexivity|lia].
+    - intros (X1 & X2). rewrite X1. cbn. lia. }
+  split; [|split; [|split]].
+  - intros t X. apply in_app_iff in X. destruct X as [X|X].
+    + destruct (interrupt_now now s) eqn:T; [|destruct X].
+      destruct X as [X|[]]. inversion X; subst. destruct HI as [HI1 _]. specialize (HI1 eq_refl). tauto.
+    + destruct (timeout_now now s); [destruct X as [X|[]]; discriminate|destruct X].
+  - intro X. apply in_app_iff in X. destruct X as [X|X].
+    + destruct (interrupt_now now s); [destruct X as [X|[]]; discriminate|destruct X].
+    + destruct (timeout_now now s) eqn:T; [|destruct X]. destruct HT as [HT1 _]. specialize (HT1 eq_refl). tauto.
+  - intros _ X1 X2 X3. assert (T : interrupt_now now s = true) by (apply HI; auto).
+    rewrite T. split; [left; reflexivity|]. rewrite C, T. apply orb_true_r.
+  - intros _ X1 X2. assert (T : timeout_now now s = true) by (apply HT; auto).
+    rewrite T. split; [apply in_app_iff; right; left; reflexivity|]. rewrite D, T. apply orb_true_r.
+Qed.
+
+(* ---------- fed endpoints are never interrupted ---------- *)
+Lemma non_poll_silent : forall dbg o s s' out,
+  step dbg o s = Ok (s', out) -> (forall now nonce cs, o <> OPoll now nonce cs) -> out = [].
+Proof.
+  intros dbg o s s' out H Hn. unfold step in H.
+  destruct o; cbn [step_gen] in H;
+    try (match type of H with match ?X with _ => _ end = _ => destruct X end; inversion H; reflexivity);
+    try (inversion H; reflexivity).
+  exfalso. eapply Hn; eauto.
+Qed.
+
+Lemma fed_run : forall ns to D dbg ops s la W s' evs,
+  D < ns -> InvT ns to s la -> no_interrupted W -> fed D dbg s ops la ->
+  run dbg s ops = Ok (s', evs) -> no_interrupted (W ++ evs) /\ no_interrupted (u_event_queue s').
+Proof.
+  intros ns to D dbg. induction ops as [|o r IH]; intros s la W s' evs HD HI HW HF H;
+    unfold run in *; cbn [run_gen fed] in *.
+  - inversion H; subst. rewrite app_nil_r. split; [exact HW|exact (proj2 HI)].
+  - change (step_gen current_code) with step in H. destruct HF as (Hpoll & HF).
+    destruct (step dbg o s) as [[s1 e1]| |] eqn:E; try discriminate.
+    destruct (run_gen current_code dbg s1 r) as [[s2 e2]| |] eqn:E2; try discriminate.
+    inversion H; subst. rewrite app_assoc.
+    eapply (IH s1 (accept_time s o la) (W ++ e1)); eauto.
+    + eapply invT_step; eauto.
+    + apply no_interrupted_app; [exact HW|].
+      destruct HI as ((K1 & K2 & K3) & HQ).
+      destruct o as [now nonce|now nonce m|now nonce cs|now inputs cs|now|now fr ck|lf|];
+        try (rewrite (non_poll_silent _ _ _ _ _ E); [intros ? []|intros; discriminate]).
+      destruct (poll_pushes _ _ _ _ _ _ _ E) as (pushed & -> & P1 & _).
+      apply no_interrupted_app; [exact HQ|].
+      intros t X. destruct (P1 t X) as (R & _ & _ & T & _). specialize (Hpoll R). lia.
+Qed.
+
+(* ---------- matched nonces are pairwise distinct when the drawn nonces are ---------- *)
+Lemma zmem_zinsert : forall x y l, zmem x (zinsert y l) = (x =? y) || zmem x l.
+Proof.
+  intros x y l. unfold zinsert. destruct (zmem y l) eqn:E; [|reflexivity].
+  destruct (x =? y) eqn:Exy; [|reflexivity]. apply Z.eqb_eq in Exy. subst. rewrite E. reflexivity.
+Qed.
+
+Lemma zmem_zremove : forall x y l, zmem x (zremove y l) = negb (x =? y) && zmem x l.
+Proof.
+  intros x y. induction l as [|z l IH]; cbn [zremove zmem]; [rewrite andb_false_r; reflexivity|].
+  destruct (y =? z) eqn:Eyz.
+  - apply Z.eqb_eq in Eyz. subst z. rewrite IH. destruct (x =? y); reflexivity.
+  - cbn [zmem]. rewrite IH. destruct (x =? z) eqn:Exz; [|reflexivity].
+    apply Z.eqb_eq in Exz. subst z. rewrite Z.eqb_sym, Eyz. reflexivity.
+Qed.
+
+Lemma nodup_snoc : forall (l : list Z) x, NoDup l -> ~ In x l -> NoDup (l ++ [x]).
+Proof.
+  induction l as [|y l IH]; intros x Hn Hx; cbn [app].
+  - constructor; [intros []|constructor].
+  - inversion Hn; subst. constructor.
+    + rewrite in_app_iff. intros [X|[X|[]]]; [contradiction|]. subst. apply Hx. left. reflexivity.
+    + apply IH; [assumption|]. intro X. apply Hx. right. exact X.
+Qed.
+
+Definition Inv3 (s : ep) (used mn : list Z) : Prop :=
+  (forall n, zmem n (u_sync_requests s) = true -> In n used) /\
+  (forall n, In n mn -> In n used) /\ NoDup mn /\
+  (forall n, In n mn -> zmem n (u_sync_requests s) = false).
+
+Lemma inv3_keep : forall s s' used mn,
+  Inv3 s used mn -> u_sync_requests s' = u_sync_requests s -> Inv3 s' ([] ++ used) (mn ++ map (@fst Z Z) []).
+Proof. intros s s' used mn H E. cbn. rewrite app_nil_r. unfold Inv3 in *. rewrite E. exact H. Qed.
+
+Lemma inv3_insert : forall s s' used mn nonce,
+  Inv3 s used mn -> ~ In nonce used -> u_sync_requests s' = zinsert nonce (u_sync_requests s) ->
+  Inv3 s' ([nonce] ++ used) (mn ++ map (@fst Z Z) []).
+Proof.
+  intros s s' used mn nonce (H1 & H2 & H3 & H4) Hf E. cbn. rewrite app_nil_r. unfold Inv3. rewrite E.
+  split; [|split; [|split]].
+  - intros n X. rewrite zmem_zinsert in X. apply orb_true_iff in X. destruct X as [X|X].
+    + left. apply Z.eqb_eq in X. auto.
+    + right. auto.
+  - intros n X. right. auto.
+  - exact H3.
+  - intros n X. rewrite zmem_zinsert, (H4 n X), orb_false_r. apply Z.eqb_neq. intro; subst. apply Hf. auto.
+Qed.
+
+Lemma inv3_step : forall dbg o s s' out W ms used mn,
+  Inv1 s W ms -> Inv3 s used mn -> (forall n, In n (draws s o) -> ~ In n used) ->
+  step dbg o s = Ok (s', out) -> Inv3 s' (draws s o ++ used) (mn ++ map fst (match_of s o)).
+Proof.
+  intros dbg o s s' out W ms used mn HI1 HI3 Hfresh H.
+  destruct o as [now nonce|now nonce m|now nonce cs|now inputs cs|now|now fr ck|lf|].
+  - unfold step in H; cbn [step_gen] in H; fold_ops H.
+    destruct (synchronize now nonce s) as [t| |] eqn:E; inversion H; subst; clear H.
+    apply synchronize_effect in E.
+    destruct E as (S0 & S1 & S2 & S3 & S4 & S5 & S6 & S7 & S8 & S9 & S10).
+    cbn [draws match_of] in *. rewrite S0 in *. cbn [pstate_eqb] in *.
+    apply (inv3_insert s); auto. apply Hfresh. left. reflexivity.
+  - unfold step in H; cbn [step_gen] in H; fold_ops H.
+    destruct (handle_message dbg now nonce m s) as [t| |] eqn:E; inversion H; subst; clear H.
+    apply handle_message_effect in E.
+    destruct E as [(Hf & ->)|(Hp & L & NS & TO & NT & [(Hm & Hmm)|(Hm & Ho)])].
+    + cbn [draws]. rewrite (match_of_filtered _ _ _ _ Hf). apply (inv3_keep s); auto.
+    + destruct Hmm as (n & Eb & Ss & Zm & R1 & R3 & Hcase).
+      cbn [draws] in *. rewrite (match_of_matched _ _ _ _ _ Hp Eb Ss Zm) in *. cbn [map fst].
+      destruct HI1 as (_ & _ & Hst). unfold st_facts in Hst. rewrite Ss in Hst.
+      destruct Hst as (_ & _ & (Slo & Shi) & _). pose proof num_facts as (N1 & N2).
+      assert (Erem : (u_sync_remaining s - 1) mod WRAP = u_sync_remaining s - 1) by (apply wrap_small; lia).
+      rewrite Erem in Hcase.
+      destruct HI3 as (H1 & H2 & H3 & H4).
+      assert (Hn_used : In n used) by (apply H1; exact Zm).
+      assert (Hn_new : ~ In n mn) by (intro X; rewrite (H4 n X) in Zm; discriminate).
+      destruct Hcase as [(Hpos & S' & Rm & Rq & Q)|(Hz & S' & Rm & Rq & Q)].
+      * assert ((1 <? u_sync_remaining s) = true) as Hd by lia. rewrite Hd in *. cbn [app].
+        assert (Hnonce : ~ In nonce used) by (apply Hfresh; left; reflexivity).
+        unfold Inv3. rewrite Rq. split; [|split; [|split]].
+        -- intros k X. rewrite zmem_zinsert, zmem_zremove in X. apply orb_true_iff in X. destruct X as [X|X].
+           ++ left. apply Z.eqb_eq in X. auto.
+           ++ right. apply andb_true_iff in X. destruct X as [_ X]. auto.
+        -- intros k X. right. apply in_app_iff in X. destruct X as [X|[X|[]]]; [auto|subst; auto].
+        -- apply nodup_snoc; assumption.
+        -- intros k X. rewrite zmem_zinsert, zmem_zremove. apply in_app_iff in X. destruct X as [X|[X|[]]].
+           ++ rewrite (H4 k X), andb_false_r, orb_false_r. apply Z.eqb_neq. intro; subst. apply Hnonce. auto.
+           ++ subst k. rewrite Z.eqb_refl. cbn [negb andb]. rewrite orb_false_r.
+              apply Z.eqb_neq. intro; subst. contradiction.
+      * assert ((1 <? u_sync_remaining s) = false) as Hd by lia. rewrite Hd in *. cbn [app].
+        unfold Inv3. rewrite Rq. split; [|split; [|split]].
+        -- intros k X. rewrite zmem_zremove in X. apply andb_true_iff in X. destruct X as [_ X]. auto.
+        -- intros k X. apply in_app_iff in X. destruct X as [X|[X|[]]]; [auto|subst; auto].
+        -- apply nodup_snoc; assumption.
+        -- intros k X. rewrite zmem_zremove. apply in_app_iff in X. destruct X as [X|[X|[]]].
+           ++ rewrite (H4 k X). apply andb_false_r.
+           ++ subst k. rewrite Z.eqb_refl. reflexivity.
+    + cbn [draws]. rewrite Hm. destruct Ho as (O1 & O2 & O3 & _). apply (inv3_keep s); auto.
+  - unfold step in H; cbn [step_gen] in H; fold_ops H.
+    destruct (poll now nonce cs s) as [[evs t]| |] eqn:E; inversion H; subst; clear H.
+    apply poll_effect in E. destruct E as (Q & NS & TO & L & RM & SR & Hst).
+    cbn [draws match_of] in *.
+    destruct (u_state s) eqn:Es; cbn [pstate_eqb andb] in *;
+      try (destruct Hst as (A & B & C & D & F); apply (inv3_keep s); auto; fail).
+    destruct Hst as (A & B & C & D & F).
+    destruct (u_last_sync_request_time s + SYNC_RETRY_INTERVAL <? now).
+    + apply (inv3_insert s); auto. apply Hfresh. left. reflexivity.
+    + apply (inv3_keep s); auto.
+  - unfold step in H; cbn [step_gen] in H; fold_ops H.
+    destruct (send_input now inputs cs s) as [t| |] eqn:E; inversion H; subst; clear H.
+    apply send_input_effect in E. destruct E as ((A1 & A2 & A3 & A4 & A5 & A6 & A7 & A8 & A9) & _).
+    apply (inv3_keep s); auto.
+  - unfold step in H; cbn [step_gen] in H; fold_ops H. inversion H; subst; clear H.
+    pose proof (disconnect_effect now s) as (D1 & D2 & D3 & D4 & D5 & D6 & D7 & D8 & D9 & D10).
+    apply (inv3_keep s); auto.
+  - pose proof (misc_effect _ _ _ _ _ H) as (((A1 & A2 & A3 & A4 & A5 & A6 & A7 & A8 & A9) & B & C) & ->).
+    apply (inv3_keep s); auto.
+  - pose proof (misc_effect _ _ _ _ _ H) as (((A1 & A2 & A3 & A4 & A5 & A6 & A7 & A8 & A9) & B & C) & ->).
+    apply (inv3_keep s); auto.
+  - pose proof (misc_effect _ _ _ _ _ H) as (((A1 & A2 & A3 & A4 & A5 & A6 & A7 & A8 & A9) & B & C) & ->).
+    apply (inv3_keep s); auto.
+Qed.
+
+Lemma inv13_run : forall dbg ops s W ms used mn s' evs,
+  Inv1 s W ms -> Inv3 s used mn -> fresh_nonces dbg s used ops -> run dbg s ops = Ok (s', evs) ->
+  NoDup (mn ++ map fst (matches dbg s ops)).
+Proof.
+  induction ops as [|o r IH]; intros s W ms used mn s' evs H1 H3 HF H;
+    unfold run in *; cbn [run_gen matches fresh_nonces] in *.
+  - cbn. rewrite app_nil_r. exact (proj1 (proj2 (proj2 H3))).
+  - change (step_gen current_code) with step in H. destruct HF as (Hfr & HF).
+    destruct (step dbg o s) as [[s1 e1]| |] eqn:E; try discriminate.
+    destruct (run_gen current_code dbg s1 r) as [[s2 e2]| |] eqn:E2; try discriminate.
+    rewrite map_app, app_assoc.
+    eapply (IH s1 (W ++ e1) (ms ++ match_of s o) (draws s o ++ used)); eauto.
+    + eapply inv1_step; eauto.
+    + eapply inv3_step; eauto.
+Qed.
+
+Section Initial2.
+Variables (now0 magic : Z) (handles : list Z) (np lp mp timeout notify fps : Z) (desync : option Z).
+Let s0 := ep_new now0 magic handles np lp mp timeout notify fps desync.
+
+Lemma invS_initial : InvS s0 [].
+Proof. unfold InvS. cbn. repeat split. Qed.
+
+(* (a) the full grammar, for every operation sequence *)
+Lemma event_grammar_full : forall dbg ops s evs,
+  run dbg s0 ops = Ok (s, evs) -> event_grammar evs /\ event_grammar (evs ++ u_event_queue s).
+Proof.
+  intros dbg ops s evs H. pose proof (invS_run dbg ops s0 [] s evs invS_initial H) as HI.
+  apply invS_accepts in HI. cbn [app] in HI. split; [exact (recog_prefix _ _ _ HI)|exact HI].
+Qed.
+
+Lemma invT_initial : InvT notify timeout s0 now0.
+Proof. unfold InvT. cbn. repeat split. intros t []. Qed.
+
+(* (c) *)
+Lemma no_early_timer : forall dbg ops s evs,
+  run dbg s0 ops = Ok (s, evs) ->
+  let la := last_accept dbg s0 ops now0 in
+  u_last_recv_time s = la /\
+  forall now nonce cs s' out, step dbg (OPoll now nonce cs) s = Ok (s', out) ->
+    exists pushed, out = u_event_queue s ++ pushed /\
+      (forall t, ~ In (EvNetworkInterrupted t) (u_event_queue s)) /\
+      (forall t, In (EvNetworkInterrupted t) pushed -> la + notify < now /\ t = Z.max 0 (timeout - notify)) /\
+      (In EvDisconnected pushed -> la + timeout < now) /\
+      (u_state s = PRunning -> u_notify_sent s = false -> u_event_sent s = false -> la + notify < now ->
+         In (EvNetworkInterrupted (Z.max 0 (timeout - notify))) pushed) /\
+      (u_state s = PRunning -> u_event_sent s = false -> la + timeout < now -> In EvDisconnected pushed).
+Proof.
+  intros dbg ops s evs H. cbv zeta.
+  pose proof (invT_run _ _ dbg ops s0 now0 s evs invT_initial H) as ((K1 & K2 & K3) & HQ).
+  split; [exact K3|]. intros now nonce cs s' out Hp.
+  destruct (poll_pushes _ _ _ _ _ _ _ Hp) as (pushed & E & P1 & P2 & P3 & P4).
+  exists pushed. rewrite <- K1, <- K2, <- K3. split; [exact E|]. split; [exact HQ|].
+  split; [|split; [|split]].
+  - intros t X. destruct (P1 t X) as (_ & _ & _ & A & B). auto.
+  - intro X. destruct (P2 X) as (_ & _ & A). exact A.
+  - intros A B C D. exact (proj1 (P3 A B C D)).
+  - intros A B C. exact (proj1 (P4 A B C)).
+Qed.
+
+Lemma no_spurious_interrupt : forall G P dbg ops s evs,
+  G + P < notify -> fed (G + P) dbg s0 ops now0 -> run dbg s0 ops = Ok (s, evs) ->
+  forall t, ~ In (EvNetworkInterrupted t) (evs ++ u_event_queue s).
+Proof.
+  intros G P dbg ops s evs HGP HF H.
+  destruct (fed_run notify timeout (G + P) dbg ops s0 now0 [] s evs HGP invT_initial
+              (fun t X => match X with end) HF H) as (A & B).
+  cbn [app] in A. apply no_interrupted_app; assumption.
+Qed.
+
+Lemma matched_nonces_distinct : forall dbg ops s evs,
+  fresh_nonces dbg s0 [] ops -> run dbg s0 ops = Ok (s, evs) -> NoDup (map fst (matches dbg s0 ops)).
+Proof.
+  intros dbg ops s evs HF H.
+  apply (inv13_run dbg ops s0 [] [] [] [] s evs); try assumption.
+  - apply inv1_initial.
+  - unfold Inv3. cbn. split; [intros n X; discriminate|]. split; [intros n []|]. split; [constructor|intros n []].
+Qed.
+End Initial2.
+
+(* replies that do not match leave the handshake alone *)
+Lemma unmatched_reply_no_effect : forall dbg now nonce magic n s s',
+  match_of s (OMessage now nonce (mkMsg magic (SyncReply n))) = [] ->
+  handle_message dbg now nonce (mkMsg magic (SyncReply n)) s = Ok s' ->
+  u_state s' = u_state s /\ u_sync_remaining s' = u_sync_remaining s /\
+  u_sync_requests s' = u_sync_requests s /\ u_remote_magic s' = u_remote_magic s /\
+  ~ In EvSynchronized (skipn (length (u_event_queue s)) (u_event_queue s')).
+Proof.
+  intros dbg now nonce magic n s s' Hm H. apply handle_message_effect in H.
+  destruct H as [(_ & ->)|(_ & _ & _ & _ & _ & [(X & _)|(_ & O1 & O2 & O3 & O4 & _ & evs & Hall & Hq)])].
+  - repeat split. rewrite skipn_all. intros [].
+  - contradiction.
+  - repeat split; try assumption.
+    assert (Hp : ~ In EvSynchronized (resumed_pre s))
+      by (unfold resumed_pre; destruct (resumed_cond s); cbn; intuition discriminate).
+    destruct Hq as [(_ & _ & _ & Q)|(_ & Q)]; rewrite Q, skipn_app, skipn_all, Nat.sub_diag; cbn [skipn app];
+      rewrite in_app_iff; intros [X|X]; try contradiction.
+    + destruct X as [X|X]; [discriminate|]. exact (inputs_no_sync _ Hall X).
+    + exact (inputs_no_sync _ Hall X).
+Qed.
+
+(* ---------- witnesses ---------- *)
+Definition w_status : list status := [(false, NULL); (false, NULL)].
+Definition w_new : ep := ep_new 0 9 [1] 2 1 8 2000 500 60 None.
+(* handshake with forged replies under magic 7: the nonces are 100..104 *)
+Definition w_handshake : list op :=
+  [OSynchronize 0 100;
+   OMessage 0 101 (mkMsg 7 (SyncReply 100)); OMessage 0 102 (mkMsg 7 (SyncReply 101));
+   OMessage 0 103 (mkMsg 7 (SyncReply 102)); OMessage 0 104 (mkMsg 7 (SyncReply 103));
+   OMessage 0 105 (mkMsg 7 (SyncReply 104))].
+Definition w_sends (now : Z) (n : nat) : list op :=
+  map (fun f => OSendInput now [(0, (Z.of_nat f, 0))] w_status) (seq 0 n).
+
+(* the code before 7ec8d35: 130 send_input calls without an ack, one poll: Disconnected twice *)
+Definition w_multi : list op := w_handshake ++ w_sends 0 130 ++ [OPoll 0 200 w_status].
+Lemma multiple_disconnected_refuted :
+  exists s evs, run_gen before_7ec8d35 true w_new w_multi = Ok (s, evs) /\ count_disconnected evs = 2%nat /\
+                recog (RSync 0) evs = None.
+Proof. eexists. eexists. split; [vm_compute; reflexivity|]. split; vm_compute; reflexivity. Qed.
+Lemma multiple_disconnected_repaired :
+  exists s evs, run true w_new w_multi = Ok (s, evs) /\ count_disconnected evs = 1%nat.
+Proof. eexists. eexists. split; [vm_compute; reflexivity|]. vm_compute; reflexivity. Qed.
+
+(* the code before 25d3021: interrupted endpoint, overflow in send_input, then a packet, then the poll
+   (followed by disconnect, as the session does): Disconnected is followed by NetworkResumed *)
+Definition w_after : list op :=
+  w_handshake ++ [OPoll 501 200 w_status] ++ w_sends 501 129 ++
+  [OMessage 501 200 (mkMsg 7 KeepAlive); OPoll 501 200 w_status; ODisconnect 501].
+Lemma event_after_disconnected_refuted :
+  exists s evs, run_gen before_25d3021 true w_new w_after = Ok (s, evs) /\ recog (RSync 0) evs = None /\
+                skipn 6 (filter (fun e => negb (is_input e)) evs) = [EvDisconnected; EvNetworkResumed].
+Proof. eexists. eexists. split; [vm_compute; reflexivity|]. split; vm_compute; reflexivity. Qed.
+
+(* non-vacuity: a complete handshake under duplication and stray replies reaches Running *)
+Definition w_dup : list op :=
+  [OSynchronize 0 100;
+   OMessage 1 101 (mkMsg 7 (SyncReply 100)); OMessage 1 102 (mkMsg 7 (SyncReply 100));
+   OMessage 2 102 (mkMsg 3 (SyncReply 999)); OMessage 2 102 (mkMsg 7 (SyncReply 101));
+   OMessage 3 103 (mkMsg 7 (SyncReply 101)); OMessage 3 103 (mkMsg 7 (SyncReply 102));
+   OMessage 4 104 (mkMsg 7 (SyncReply 103)); OMessage 4 105 (mkMsg 7 (SyncReply 100));
+   OMessage 5 105 (mkMsg 8 (SyncReply 104)); OMessage 6 106 (mkMsg 7 (SyncReply 104));
+   OPoll 6 106 w_status].
+Lemma handshake_example :
+  exists s evs, run true w_new w_dup = Ok (s, evs) /\ is_running s = true /\ matched true w_new w_dup = 5 /\
+    u_remote_magic s = 8 /\ fresh_nonces true w_new [] w_dup /\
+    evs = [EvSynchronizing 5 1; EvSynchronizing 5 2; EvSynchronizing 5 3; EvSynchronizing 5 4; EvSynchronized].
+Proof.
+  eexists. eexists. split; [vm_compute; reflexivity|].
+  split; [vm_compute; reflexivity|]. split; [vm_compute; reflexivity|]. split; [vm_compute; reflexivity|].
+  split; [|vm_compute; reflexivity].
+  vm_compute. repeat split; intros x A B; try contradiction; destruct A as [A|[]]; subst x; intuition discriminate.
+Qed.
+
+(* non-vacuity: an interruption / resume cycle, then the timeout *)
+Definition w_cycle : list op :=
+  w_handshake ++
+  [OPoll 500 200 w_status; OPoll 501 200 w_status; OMessage 600 200 (mkMsg 7 KeepAlive);
+   OPoll 1100 200 w_status; OPoll 1101 200 w_status; OPoll 2600 200 w_status; OPoll 2601 200 w_status;
+   OMessage 2700 200 (mkMsg 7 KeepAlive); OPoll 9000 200 w_status].
+Lemma cycle_example :
+  exists s evs, run true w_new w_cycle = Ok (s, evs) /\
+    skipn 5 evs = [EvNetworkInterrupted 1500; EvNetworkResumed; EvNetworkInterrupted 1500; EvDisconnected] /\
+    event_grammar evs.
+Proof.
+  eexists. eexists. split; [vm_compute; reflexivity|]. split; [vm_compute; reflexivity|].
+  vm_compute. discriminate.
 Qed.
